@@ -664,6 +664,15 @@ impl Hooks for IoHooks {
                 }
             }
             "OUTPUT.WRITE" => {
+                if self.pre_bv.is_some() && self.pre_iv.is_some() {
+                    // a message is made of both operands: taking one and leaving the other pairs the
+                    // remaining one with a foreign partner later (messages out of program order)
+                    let took_b = dbv - st.bool_vector_stack.size().min(dbv);
+                    let took_i = div - st.int_vector_stack.size().min(div);
+                    if took_b != took_i {
+                        self.v("instr", "OUTPUT.WRITE", format!("consumed {} BOOLVECTOR and {} INTVECTOR operand(s) with both present (queue held {} of {})", took_b, took_i, self.output.len(), self.out_cap), ev);
+                    }
+                }
                 if let (Some(body), Some(header)) = (self.pre_bv.clone(), self.pre_iv.clone()) {
                     if self.output.len() < self.out_cap {
                         self.output.push_back(MsgSpec { header, body });
